@@ -247,6 +247,15 @@ func (c *Ctx) Func(rel, name string) *ssa.Function {
 			c.Anchors["renamed: "+name] = f.Name()
 			return f
 		}
+		// an unexported method that only its exported wrapper called may have been inlined into that wrapper
+		if w, ok := an.InlinedInto[name]; ok {
+			if obj, _ := c.LookupObj(rel, w).(*types.Func); obj != nil {
+				if f := c.Prog.FuncValue(obj); f != nil {
+					c.Anchors["inlined: "+name] = f.Name()
+					return f
+				}
+			}
+		}
 		// a method whose receiver was unused may have become a plain function of the same name (or the reverse is not tried)
 		if recv != "" {
 			if obj, _ := c.LookupObj(rel, fname).(*types.Func); obj != nil {
